@@ -95,6 +95,7 @@ structure Qubit (α : Type) where
   T1 : α
   lastAccessed : α
   num : Nat
+  deriving DecidableEq, Repr
 
 /-- what one call of `_apply_random_pauli_noise` reads from outside: the two
 `time.time()` readings (lines 294, 295) and the `random.random()` draw (297) -/
@@ -102,6 +103,7 @@ structure Env (α : Type) where
   now1 : α
   now2 : α
   x : α
+  deriving DecidableEq, Repr
 
 /-- outcome of `_apply_random_pauli_noise` -/
 inductive NoiseObs
